@@ -861,28 +861,6 @@ func (sc *c09Scenario) round() {
 		rt.Fatalf("tree grew from %d to %d, but %d new entries were accepted in this round:\n%s", sc.size, cp.Size, len(newKeys), strings.Join(lines, "\n"))
 	}
 	store := &c09Store{be: sc.be}
-	seen := map[[32]byte]int64{}
-	for idx := sc.size; idx < cp.Size; idx++ {
-		e, err := store.leaf(cp.Size, idx)
-		if err != nil {
-			rt.Fatalf("reading new leaf %d: %v", idx, err)
-		}
-		k := c09DedupKey(e)
-		if !newKeys[k] {
-			rt.Fatalf("new leaf %d (precert=%v, %d bytes) is not the entry of any submission accepted in this round", idx, e.IsPrecert, len(e.Cert))
-		}
-		if prev, dup := seen[k]; dup {
-			rt.Fatalf("the same entry was logged twice, at %d and %d", prev, idx)
-		}
-		seen[k] = idx
-		if e.Index != idx || e.Archival {
-			rt.Fatalf("leaf stored at position %d carries leaf_index %d (archival=%v)", idx, e.Index, e.Archival)
-		}
-		sc.tree.Append(e.MerkleTreeLeaf())
-	}
-	if root := sc.tree.Root(cp.Size); root != cp.Root {
-		rt.Fatalf("checkpoint root %x differs from the RFC 6962 root %x of the %d stored leaves", cp.Root, root, cp.Size)
-	}
 	oldSize := sc.size
 	sc.size = cp.Size
 
@@ -971,7 +949,32 @@ func (sc *c09Scenario) round() {
 		}
 	}
 
-	// 4. statistics
+	// 4. every new leaf is the entry of exactly one newly accepted submission
+	// (rejections leave no leaf), and the checkpoint commits to exactly them
+	seen := map[[32]byte]int64{}
+	for idx := oldSize; idx < cp.Size; idx++ {
+		e, err := store.leaf(cp.Size, idx)
+		if err != nil {
+			rt.Fatalf("reading new leaf %d: %v", idx, err)
+		}
+		k := c09DedupKey(e)
+		if !newKeys[k] {
+			rt.Fatalf("new leaf %d (precert=%v, %d bytes) is not the entry of any submission accepted in this round", idx, e.IsPrecert, len(e.Cert))
+		}
+		if prev, dup := seen[k]; dup {
+			rt.Fatalf("the same entry was logged twice, at %d and %d", prev, idx)
+		}
+		seen[k] = idx
+		if e.Index != idx || e.Archival {
+			rt.Fatalf("leaf stored at position %d carries leaf_index %d (archival=%v)", idx, e.Index, e.Archival)
+		}
+		sc.tree.Append(e.MerkleTreeLeaf())
+	}
+	if root := sc.tree.Root(cp.Size); root != cp.Root {
+		rt.Fatalf("checkpoint root %x differs from the RFC 6962 root %x of the %d stored leaves", cp.Root, root, cp.Size)
+	}
+
+	// 5. statistics
 	for i, s := range subs {
 		sp := s.spec
 		verdict := [...]string{"accept", "reject", "open"}[s.expect]
